@@ -433,7 +433,9 @@ def delivery_all_clients():
         flip18 = bytearray(base[3]); flip18[18] ^= 0x40; flip18 = bytes(flip18)                       # reserved byte damaged, checksum not updated
         flipd = bytearray(base[3]); flipd[12] ^= 0x01; flipd = bytes(flipd)                          # data bit flip, checksum not updated
         quiet = bytes([0x00, 0x11, 0x7F, 0x55, 0x33])
-        stream = [base[0], quiet, inner, inner2, quiet * 7, flip18, quiet, flipd, quiet, base[3], base[4]]
+        # a wire-valid packet the decoder cannot decode and rejects with something else than ValueError (zero-length frame of a fast-packet PGN)
+        weird = usb_fix(bytes([0xaa, 0x55, 1, 2, 1]) + (0x0DF81001).to_bytes(4, 'little') + bytes([0]) + bytes(8) + bytes([0, 0]))
+        stream = [base[0], quiet, inner, weird, inner2, quiet * 7, flip18, quiet, flipd, quiet, base[3], base[4]]
         ref = NMEA2000Decoder(); exp = []
         for p in (base[0], inner, inner2, base[3], base[4]):
             m = ref.decode_usb(p)
@@ -578,12 +580,73 @@ def reconnect_mid_packet():
     return None if 'bad' in r else {'scenario': 'reconnect mid packet', 'observed': r}
 
 
+def send_after_fault():
+    r = run_script('''
+    async def main():
+        c = IO.EByteNmea2000Gateway('h', 1)
+        log1, log2 = [], []
+        async def fake_connect_impl():
+            c.reader = FakeReader([], eof=False); c.writer = FakeWriter(log2)
+        c._connect_impl = fake_connect_impl
+        c.writer = FakeWriter(log1, fail_after=1); c.reader = FakeReader([], eof=False); c._state = State.CONNECTED
+        await c.send(fast_message(1))                 # the second packet fails: DISCONNECTED, reconnect
+        for _ in range(200):
+            await asyncio.sleep(0.01)
+            if c.state == State.CONNECTED: break
+        st = c.state.name
+        try:
+            await asyncio.wait_for(c.send(fast_message(2)), 3)
+            later = 'completed'
+        except asyncio.TimeoutError:
+            later = 'blocked for 3 s'
+        await c.close()
+        print('RESULT ' + json.dumps({'state_after_fault': st, 'later_send': later, 'packets_on_new_link': len([p for p in log2 if p[4] == 2])}))
+    asyncio.run(main())
+    ''', timeout=40)
+    if r.get('later_send') != 'completed' or r.get('packets_on_new_link') != 7:
+        return {'scenario': 'a write fails in the middle of a message; the client reconnects; a later send() on the new link', 'observed': r,
+                'expected': 'the later send() completes and writes its 7 packets'}
+    return None
+
+
+def read_fails_with_value_error():
+    r = run_script('''
+    class OverlongLineReader:
+        async def readline(self):
+            await asyncio.sleep(0)
+            raise ValueError('Separator is not found, and chunk exceed the limit')
+    async def main():
+        c = IO.YachtDevicesNmea2000Gateway('h', 1)
+        trace = []
+        async def scb(s): trace.append(s.name)
+        c.set_status_callback(scb)
+        sessions = []
+        async def fake_connect_impl():
+            sessions.append(1)
+            c.reader = OverlongLineReader() if len(sessions) == 1 else FakeReader([], eof=False)
+            c.writer = FakeWriter([])
+        c._connect_impl = fake_connect_impl
+        await c.connect()
+        for _ in range(300):
+            await asyncio.sleep(0.01)
+            if len(sessions) >= 2 and c.state == State.CONNECTED: break
+        out = {'sessions': len(sessions), 'state': c.state.name, 'trace': trace, 'receive_task_alive': bool(c._receive_task and not c._receive_task.done())}
+        await c.close()
+        print('RESULT ' + json.dumps(out))
+    asyncio.run(main())
+    ''', timeout=40)
+    if r.get('sessions', 0) < 2 or r.get('state') != 'CONNECTED' or 'DISCONNECTED' not in r.get('trace', []):
+        return {'scenario': 'a read fails with ValueError (over-long line from the gateway) on the first session', 'observed': r,
+                'expected': 'DISCONNECTED is reported, the client reconnects and is CONNECTED on a second session'}
+    return None
+
+
 BATTERY = {
-    'C19': {'concurrent-send': [concurrent_send], 'unsendable': [unsendable], 'stale-writer': [stale_writer], None: [concurrent_send, unsendable, stale_writer]},
+    'C19': {'concurrent-send': [concurrent_send], 'unsendable': [unsendable], 'stale-writer': [stale_writer], 'send-after-fault': [send_after_fault], None: [concurrent_send, unsendable, stale_writer, send_after_fault]},
     'C14': {'close-during-connect': [close_during_connect], 'close-sets-closed-late': [transport_opens_during_close], 'status-trace': [status_trace], 'status-callback-raises': [status_trace],
             'close-during-_receive_loop': [fault_while_closing], 'close-during-send': [fault_while_closing],
             None: [close_during_connect, fault_while_closing, status_trace, transport_opens_during_close]},
-    'C13': {'eof': [eof_no_stall], 'reconnect-after-reset': [reconnect_after_reset], 'reconnect-mid-packet': [reconnect_mid_packet], None: [eof_no_stall, close_during_connect, reconnect_after_reset, reconnect_mid_packet]},
+    'C13': {'eof': [eof_no_stall], 'reconnect-after-reset': [reconnect_after_reset], 'reconnect-mid-packet': [reconnect_mid_packet], None: [eof_no_stall, close_during_connect, reconnect_after_reset, reconnect_mid_packet, read_fails_with_value_error]},
     'C12': {'reconnect-mid-packet': [reconnect_mid_packet], None: [delivery_order, delivery_all_clients, serial_split_marker, reconnect_mid_packet]},
     'C06': {None: [delivery_all_clients, serial_split_marker]},
     'C20': {'bound': [serial_buffer], 'split-marker': [serial_split_marker], None: [serial_buffer, serial_split_marker, delivery_all_clients]},
